@@ -218,6 +218,9 @@ class Comm:
         if self._r == root:
             recv, sizes, starts = recvbuf[0], recvbuf[1], recvbuf[2]
             for q in range(self._s.n):
+                if len(vals[q]) and np.asarray(vals[q]).dtype.itemsize != np.asarray(recv).dtype.itemsize:
+                    raise SimMPIError("Gatherv: message truncated: rank %d sent %s, root receives %s"
+                                      % (q, np.asarray(vals[q]).dtype, np.asarray(recv).dtype))
                 if len(vals[q]) != sizes[q]:
                     raise SimMPIError("Gatherv: rank %d sent %d, root expected %d"
                                       % (q, len(vals[q]), sizes[q]))
